@@ -102,7 +102,8 @@ def make_case(index, rng, tier):
             clients.append({"ops": ops2, "phase": ph2})
         at = round(rng.uniform(win[0], max(win[0] + 0.01, win[1])), 3)
         return {"family": fam, "kind": kind, "graceful_timeout": gt, "sig": sig, "clients": clients, "sig_at": at,
-                "wconn": rng.choice([1, 2, 10]) if kind in ("gevent", "eventlet") else 10,
+                "extra": "noise-after-term" if sig == "TERM" and rng.randrange(4) == 0 else None,
+            "wconn": rng.choice([1, 2, 10]) if kind in ("gevent", "eventlet") else 10,
                 "sig_tick": rng.randrange(1, 120) if rng.randrange(3) == 0 else None, "keepalive": rng.choice([1, 2, 3, 5]),
                 "binds": rng.choice([1, 1, 2]),
                 "threads": rng.randrange(1, 3), "buggify": {"pyticks": rng.randrange(3) == 0, "short_recv": rng.randrange(3) == 0}}
@@ -124,7 +125,7 @@ def make_case(index, rng, tier):
                 "unix": rng.randrange(3) == 0, "pidfile": rng.randrange(4) != 0,
                 "buggify": {"pyticks": rng.randrange(3) == 0, "fork_child_first": rng.randrange(2) == 0, "spurious_select": rng.randrange(3) == 0,
                             "random_spawn_delay": rng.randrange(2) == 0},
-                "extra": rng.choice([None, None, "second-signal", "killw", "ttou-before", "hup-before", "rm-socket", "burst-before", "hup-rebind", "quit-after-term"])}
+                "extra": rng.choice([None, None, "second-signal", "killw", "ttou-before", "hup-before", "rm-socket", "burst-before", "hup-rebind", "quit-after-term", "noise-after-term"])}
     kind = rng.choice(["sync", "gthread", "gevent", "eventlet"])
     clients = []
     for i in range(rng.randrange(1, 4)):
@@ -425,6 +426,15 @@ def run_master(case, choices):
                 sim.fault("master_signal:quit-after-term")
                 sim.kill(m.pid, int(signal.SIGQUIT))
         sim.after(case["sig_at"] + 0.5, quit_now)
+    elif case.get("extra") == "noise-after-term" and case["sig"] == "TERM":
+        # a signal that asks for something else (log rotation, pool size, reload ...) reaches the master while it waits for its workers:
+        # whatever it makes of it, the stop stays a graceful one
+        def noise():
+            if m.state == "running":
+                sg = [signal.SIGUSR1, signal.SIGWINCH, signal.SIGTTIN, signal.SIGTTOU, signal.SIGHUP, signal.SIGTERM][int(case["sig_at"] * 1000) % 6]
+                sim.fault("master_signal:noise-after-term:%s" % sg.name)
+                sim.kill(m.pid, int(sg))
+        sim.after(case["sig_at"] + 0.3, noise)
     elif case.get("extra") == "hup-rebind" and case["unix"]:
         # a reload that moves the server to another unix socket path, some time before it is stopped: the file of the first socket is
         # the server's own creation as well
@@ -458,6 +468,9 @@ def run_master(case, choices):
         sim.after(case["sig_at"] + 0.2, kw)
 
     def observer(s, actor, kind, detail):
+        if kind == "kill" and actor == m.name and detail[1] == "SIGQUIT" and case["sig"] == "TERM" \
+                and case.get("extra") not in ("quit-after-term", "second-signal") and "quit_by_master" not in state:
+            state["quit_by_master"] = (s.now, detail[0])
         if kind == "handler" and actor.startswith("worker") and detail == "SIGTERM":
             t = current_task()
             state["worker_term"].setdefault(t.proc.pid, s.now)
@@ -473,6 +486,11 @@ def run_master(case, choices):
                                                  and not [p for p in sim.procs.values() if p.name.startswith("worker") and p.state == "running"]))
         if sim.crash:
             raise master.HarnessError(sim.crash)
+        if state.get("quit_by_master") and not any(sg in (int(signal.SIGQUIT), int(signal.SIGINT)) for _, sg in m.sig_received):
+            res.violate("C04:%s:graceful-stop-turned-quick" % fam,
+                        "the master was asked to stop gracefully (TERM, never QUIT or INT), yet it sent SIGQUIT to worker %d at t=%.2f: the "
+                        "requests in flight are cut; signals it received: %r; %s"
+                        % (state["quit_by_master"][1], state["quit_by_master"][0], [(round(t_, 2), sg) for t_, sg in m.sig_received][:6], ctx()))
         handled = [t for t, sg in m.sig_received if sg == signum]
         t_sig = handled[0] if handled else None
         if t_sig is None and state["sent"] is not None and m.state != "running":
